@@ -159,7 +159,7 @@ TermLoop(batch, i, g, F, r) ==
     ELSE IF r.asg.desired - 1 < r.asg.min
       THEN [r EXCEPT !.ok = FALSE, !.ret = "error", !.calls = Append(@, Call("terminate", g, n, FALSE, 1, 0, "min"))]
     ELSE TermLoop(batch, i + 1, g, F,
-           [r EXCEPT !.calls = Append(@, Call("terminate", g, n, TRUE, 1, 0, "")),
+           [r EXCEPT !.calls = Append(@, Call("terminate", g, n, TRUE, 1, 1, "")),
                      !.terminated = @ \cup {n},
                      \* fix F6: the provider keeps its cached group in step with accepted terminations
                      !.pc = [@ EXCEPT !.desired = @ - 1, !.members = @ \ {n}],
@@ -249,10 +249,12 @@ ScaleUpOutcome(gs0, g, dry, now, F, N, ts, att, r) ==
       doUnt == Len(ts) > 0
       fails == IF dry THEN {} ELSE UntaintFails(F, r.api, att)
       selOK == IF doUnt THEN SelectOKSeq(created, -1, cands, N, fails, att) ELSE att = <<>>
-      u == IF ~doUnt THEN [r EXCEPT !.succ = 0]
-           ELSE IF dry THEN [r EXCEPT !.succ = Len(att),
-                                      !.ctl = [@ EXCEPT !.tracker = Filter(@, LAMBDA x : x \notin SeqToSet(att))]]
-           ELSE UntaintLoop(att, 1, g, F, [r EXCEPT !.succ = 0])
+      failAll == IF dry THEN {} ELSE {n \in cands : GetFails(F, r.api, n) \/ (r.api[n].taint.has /\ Failing(F, "update", n))}
+      r0 == IF doUnt THEN [r EXCEPT !.sel = [dir |-> -1, cands |-> cands, k |-> N, fails |-> failAll]] ELSE r
+      u == IF ~doUnt THEN [r0 EXCEPT !.succ = 0]
+           ELSE IF dry THEN [r0 EXCEPT !.succ = Len(att),
+                                       !.ctl = [@ EXCEPT !.tracker = Filter(@, LAMBDA x : x \notin SeqToSet(att))]]
+           ELSE UntaintLoop(att, 1, g, F, [r0 EXCEPT !.succ = 0])
       rest == N - u.succ
       \* scaleUpCloudProviderNodeGroup: clamp against the cached target size (fix F1: and max_nodes)
       bound == Min2(u.pc.max, u.ctl.maxEff)
@@ -269,7 +271,7 @@ ScaleUpOutcome(gs0, g, dry, now, F, N, ts, att, r) ==
                 injected == Failing(F, "set_desired", g)
                 bounds == target > u.asg.max \/ target < u.asg.min
                 ok == ~injected /\ ~bounds
-                c == Call("set_desired", g, "", ok, target, u.asg.desired, IF injected THEN "injected" ELSE IF bounds THEN "bounds" ELSE "")
+                c == Call("set_desired", g, g, ok, target, u.asg.desired, IF injected THEN "injected" ELSE IF bounds THEN "bounds" ELSE "")
             IN IF ok THEN [u EXCEPT !.valid = @ /\ selOK, !.result = u.succ + add, !.calls = Append(@, c),
                                     !.asg = [@ EXCEPT !.desired = target],
                                     !.accepted = now,
@@ -298,7 +300,8 @@ GroupScan(gs, g, now, dryAll, F, obs) ==
                pids |-> [n \in DOMAIN view |-> view[n].pid],
                terminated |-> {}, deleted |-> {}, tainted |-> {}, untainted |-> {}, succ |-> 0, result |-> 0,
                ret |-> "nil", ok |-> TRUE, valid |-> TRUE, uperr |-> FALSE,
-               lookReq |-> {}, lookMay |-> {}, fatal |-> FALSE, panics |-> FALSE, branch |-> "", nd |-> 0]
+               lookReq |-> {}, lookMay |-> {}, fatal |-> FALSE, panics |-> FALSE, branch |-> "", nd |-> 0, ndSet |-> {0},
+               sel |-> [dir |-> 0, cands |-> {}, k |-> 0, fails |-> {}]]
       Done(r, delta, ret, branch) ==
         [r EXCEPT !.ctl = [@ EXCEPT !.delta = delta], !.ret = ret, !.branch = branch]
       lp == Call("list_pods", g, "", ~Failing(F, "list_pods", g), 0, 0, "")
@@ -370,13 +373,14 @@ GroupScan(gs, g, now, dryAll, F, obs) ==
       \* is 0); every non-positive decision leads to the same outcome, a positive one never reaches the grace reaper
       nd == IF obs.ndAny THEN (IF \E x \in ndSet : x <= 0 THEN CHOOSE x \in ndSet : x <= 0 ELSE CHOOSE x \in ndSet : TRUE)
             ELSE raw
-      r3 == [r2 EXCEPT !.lookReq = lookReq, !.lookMay = lookMay, !.valid = ndOK(nd), !.nd = nd]
+      r3 == [r2 EXCEPT !.lookReq = lookReq, !.lookMay = lookMay, !.valid = ndOK(nd), !.nd = nd, !.ndSet = ndSet]
       \* :413-421 force reaper; its error is only logged
       fr == DeleteBatch(ForceCands(gs, dry, fs), g, F, r3)
       r4 == [fr EXCEPT !.ret = "nil", !.ok = TRUE]
-      \* fix F7 would propagate fr.ret = "notingroup" here
   IN
-  IF nd < 0 THEN
+  \* fix F7: the not-in-group error stops the controller from this path as well
+  IF fr.ret = "notingroup" THEN [Done(fr, 0, "notingroup", "force_fatal") EXCEPT !.fatal = TRUE]
+  ELSE IF nd < 0 THEN
        \* scale_down.go ScaleDown: grace reaper, then taint oldest
        LET gr == DeleteBatch(GraceCands(gs, dry, now, ts), g, F, r4)
        IN IF gr.ret = "notingroup" THEN [Done(gr, 0, "notingroup", "down_fatal") EXCEPT !.fatal = TRUE]
@@ -384,12 +388,14 @@ GroupScan(gs, g, now, dryAll, F, obs) ==
                    k0 == -nd
                    k == IF nUnt - k0 < minEff THEN nUnt - minEff ELSE k0
                    created == CreatedOf(gs)
+                   failAll == IF dry THEN {} ELSE {n \in SeqToSet(unt) : GetFails(F, r5.api, n) \/ (~r5.api[n].taint.has /\ Failing(F, "update", n))}
+                   r6 == [r5 EXCEPT !.sel = [dir |-> 1, cands |-> SeqToSet(unt), k |-> k, fails |-> failAll]]
                IN IF k < 0 THEN Done([r5 EXCEPT !.valid = @ /\ obs.att = <<>>], nd, "nil", "down_abort")
                   ELSE IF dry
                     THEN LET selOK == SelectOKSeq(created, 1, SeqToSet(unt), k, {}, obs.att)
-                         IN Done([r5 EXCEPT !.valid = @ /\ selOK, !.ctl = [@ EXCEPT !.tracker = @ \o obs.att]], nd, "nil", "down")
-                    ELSE LET selOK == SelectOKSeq(created, 1, SeqToSet(unt), k, TaintFails(F, r5.api, obs.att), obs.att)
-                             t == TaintLoop(obs.att, 1, g, F, now, EffectOf(gs), [r5 EXCEPT !.succ = 0])
+                         IN Done([r6 EXCEPT !.valid = @ /\ selOK, !.ctl = [@ EXCEPT !.tracker = @ \o obs.att]], nd, "nil", "down")
+                    ELSE LET selOK == SelectOKSeq(created, 1, SeqToSet(unt), k, TaintFails(F, r6.api, obs.att), obs.att)
+                             t == TaintLoop(obs.att, 1, g, F, now, EffectOf(gs), [r6 EXCEPT !.succ = 0])
                          IN Done([t EXCEPT !.valid = @ /\ selOK], nd, "nil", "down")
   ELSE IF nd > 0 THEN
        LET u == ScaleUpOutcome(gs, g, dry, now, F, nd, ts, obs.att, r4)
@@ -431,7 +437,8 @@ GroupLoop(i, F, obs, acc, order) ==
        IN IF r.fatal THEN [acc2 EXCEPT !.ret = "notingroup", !.W = [W2 EXCEPT !.alive = FALSE]]
           ELSE GroupLoop(i + 1, F, obs, acc2, order)
 
-NoResult == [branch |-> "not_scanned", valid |-> TRUE, calls |-> <<>>, lookReq |-> {}, lookMay |-> {}, nd |-> 0,
+NoResult == [branch |-> "not_scanned", valid |-> TRUE, calls |-> <<>>, lookReq |-> {}, lookMay |-> {}, nd |-> 0, ndSet |-> {0},
+             sel |-> [dir |-> 0, cands |-> {}, k |-> 0, fails |-> {}],
              terminated |-> {}, deleted |-> {}, tainted |-> {}, untainted |-> {}, ret |-> "nil", fatal |-> FALSE]
 
 RunOnce(W, F, obs) ==
